@@ -264,6 +264,8 @@ WS_SRC = ('--[[ block\r\ncomment\nmixed\r\nendings ]]\nlocal   x = 1   -- traili
 C10_WITNESSES = [w(WS_SRC, oracle="whitespace", **o) for o in (dict(), dict(line_endings="Windows"), dict(indent_type="Spaces", indent_width="3"), dict(indent_type="Spaces", indent_width="2", line_endings="Windows"))] + [
     w('for i = 1, 2\n-- cm\ndo end\n', oracle="whitespace"),          # D14 (repaired)
     w('for k, v in pairs(t)\n-- d\ndo end\n', oracle="whitespace"),   # D14 (repaired)
+    w('local x = 1; -- c  \r\nlocal y = 2; --[[ a\r\nb ]]\r\nreturn x; -- d   \r\n', oracle="whitespace"),   # D35 (repaired): comments moved off a removed semicolon
+    w('local x = 1; -- c  \nlocal y = 2; --[[ a\nb ]]\nreturn x; -- d   \n', oracle="whitespace", line_endings="Windows"),
 ]
 TYPE_WITNESSES = [
     w('type Callback = ((a: number) -> Result) | ((a: number, b: string) -> ()) | nil\nlocal x: (() -> ())? = nil\ntype U = (A & B) | C\nlocal f = function(cb: ((n: number) -> ()) | ((s: string) -> boolean) | nil) end\n', oracle="tree", syntax="luau", sweep=(20, 140)),
